@@ -14,7 +14,7 @@ PROP = {
         "runs": [{
             "component": "codec",
             "quick": {"gen": [(1500, 40)], "enum": [(9,)]},
-            "thorough": {"gen": [(30000, 60)], "enum": [(13,)]},
+            "thorough": {"gen": [(30000, 60)], "enum": [(16,)]},
             "timeout": 1500,
         }],
         "rule": "scripts drive the real sonic.CodecConn[[]byte,[]byte] with the real codec/frame.Codec over the scripted in-memory "
